@@ -453,3 +453,302 @@ Example C12_ex_erase :
   run_r (x6_read true 0) (mk_st ex_wire 3 0 (MLim (lr_new 60 LS_IPV6_PAYLOAD 40 L_IPV6H)))
   = (QOk [43; 63], snd (read6 true 0 (mk_st ex_wire 3 0 (MLim (lr_new 60 LS_IPV6_PAYLOAD 40 L_IPV6H))))).
 Proof. vm_compute. reflexivity. Qed.
+
+(* ================================================================== *)
+(* audit follow-up (round 1 audit): WHEN does the walk succeed, WHAT does an error mean.
+   Reference: ExtChain/ChainSpec.v, written from RFC 8200 4 / 4.1 without any function of the model:
+     slot_order ks      every header may follow the ones in front of it (may_follow): hop-by-hop options only
+                        directly behind the IPv6 header, the first destination options position never behind
+                        the routing header, the second one only behind it; nothing else is constrained
+                        (the order routing/fragment/auth is only "recommended" by the RFC and NOT enforced
+                        by the crate, see C12_ex_chain4_permuted)
+     referenced get first chain next
+                        chain = headers of the set `get`, none twice, slot_order, Spec.linked first chain next
+     can_extend / maximal   `next` announces a header of the set that is not yet in the chain and may follow it
+     unreferenced       the headers of the set the chain does not mention, in RFC 8200 order
+     complete_chain     Permutation chain (in_rfc_order get) /\ slot_order /\ linked first chain n:
+                        EVERY header of the set exactly once
+     verdict            VOk next | VHopByHopNotAtStart | VNotReferenced (number of the first unreferenced header)
+   ExtChain/ChainView.v: res_of_verdict / unit_of_verdict (the verdict as Result of next_header / write),
+   wire_bytes e ks (Spec wire formats of the headers at positions ks, in that order), error_of, decode_end. *)
+From Coq Require Import Permutation.
+From EP Require Import ExtChain.ChainSpec ExtChain.ChainView ExtChain.Soundness ExtChain.DecodeWriteAny.
+
+(* the master statement, for EVERY struct and first number (no validity hypothesis for the walk): there is a
+   chain from `first` through headers of e that cannot be continued; next_header returns its verdict; write
+   (under the type invariant) emits exactly the headers of that chain, in chain order, in their RFC wire
+   formats, and returns the same verdict -- also on the error path *)
+Theorem C12_walk_exact : forall e first, exists chain next,
+  referenced (get_nh e) first chain next /\ maximal (get_nh e) chain next /\
+  next_header e first = res_of_verdict (verdict (get_nh e) chain next) /\
+  (exts6_valid e = true ->
+   write e first = (wire_bytes e (map fst chain), unit_of_verdict (verdict (get_nh e) chain next))).
+Proof. exact walk_exact. Qed.
+Print Assumptions C12_walk_exact.
+
+(* ... and that chain is unique (for any header set): "the" maximal chain *)
+Theorem C12_chain_unique : forall get first c1 n1 c2 n2,
+  referenced get first c1 n1 -> maximal get c1 n1 ->
+  referenced get first c2 n2 -> maximal get c2 n2 -> c1 = c2 /\ n1 = n2.
+Proof. exact maximal_unique. Qed.
+Print Assumptions C12_chain_unique.
+
+(* soundness AND completeness of success: next_header is Ok n exactly when the headers of e can be
+   arranged into a linked chain first ... n that obeys the slot discipline and contains EVERY header
+   of e exactly once (nothing dropped, nothing twice) *)
+Theorem C12_walk_ok_iff_chain : forall e first n,
+  next_header e first = Ok n <->
+  exists chain, Permutation chain (in_rfc_order (get_nh e)) /\ slot_order (map fst chain) /\ linked first chain n.
+Proof. exact walk_ok_iff_chain. Qed.
+Print Assumptions C12_walk_ok_iff_chain.
+
+(* the same for write, with the bytes: they are the headers of that chain, in chain order *)
+Theorem C12_write_ok_iff_chain : forall e first bs, exts6_valid e = true ->
+  (write e first = (bs, Ok tt) <->
+   exists chain n, (Permutation chain (in_rfc_order (get_nh e)) /\ slot_order (map fst chain) /\ linked first chain n) /\
+                   next_header e first = Ok n /\ bs = wire_bytes e (map fst chain)).
+Proof. exact write_ok_iff_chain. Qed.
+Print Assumptions C12_write_ok_iff_chain.
+
+(* exact characterisation of the errors: Err x exactly when the maximal chain leaves headers out; x names the
+   FIRST header in RFC 8200 order that is left out (ExtNotReferenced), except that a chain stopping on
+   0 in front of a left-out hop-by-hop header is HopByHopNotAtStart *)
+Theorem C12_walk_err_iff_chain : forall e first x,
+  next_header e first = Err x <->
+  exists chain next k rest,
+    referenced (get_nh e) first chain next /\ maximal (get_nh e) chain next /\
+    unreferenced (get_nh e) chain = k :: rest /\ x = error_of next k.
+Proof. exact walk_err_iff_chain. Qed.
+Print Assumptions C12_walk_err_iff_chain.
+
+(* the header an error names is in the struct and NO chain from `first` (maximal or not) leads to it:
+   it really is unreferenced or misplaced; for HopByHopNotAtStart some non-empty chain leads to the number 0 *)
+Theorem C12_walk_err_unreferenced : forall e first x, next_header e first = Err x ->
+  match x with
+  | ExtNotReferenced m =>
+    exists k, ip_number_of k = m /\ is_some (get_nh e k) = true /\
+              forall chain next, referenced (get_nh e) first chain next -> ~ In k (map fst chain)
+  | HopByHopNotAtStart =>
+    is_some (get_nh e KHopByHop) = true /\
+    (forall chain next, referenced (get_nh e) first chain next -> ~ In KHopByHop (map fst chain)) /\
+    exists chain, chain <> [] /\ referenced (get_nh e) first chain (ip_number_of KHopByHop)
+  end.
+Proof. exact walk_err_unreferenced. Qed.
+Print Assumptions C12_walk_err_unreferenced.
+
+(* a chain linked in the RFC 8200 order is accepted (the converse is false: C12_ex_chain4_permuted) *)
+Theorem C12_rfc_order_walks : forall e first n,
+  linked first (in_rfc_order (get_nh e)) n -> next_header e first = Ok n.
+Proof. exact rfc_order_walks. Qed.
+Print Assumptions C12_rfc_order_walks.
+
+(* Ipv4Extensions: the same statements (the set has at most the authentication header) *)
+Theorem C12_v4_walk_exact : forall e first, exists chain next,
+  referenced (get_nh4 e) first chain next /\ maximal (get_nh4 e) chain next /\
+  next_header4 e first = res_of_verdict (verdict (get_nh4 e) chain next) /\
+  (exts4_valid e = true ->
+   write4 e first = (wire_bytes4 e (map fst chain), unit_of_verdict (verdict (get_nh4 e) chain next))).
+Proof. exact walk4_exact. Qed.
+Print Assumptions C12_v4_walk_exact.
+
+Theorem C12_v4_walk_ok_iff_chain : forall e first n,
+  next_header4 e first = Ok n <->
+  exists chain, Permutation chain (in_rfc_order (get_nh4 e)) /\ slot_order (map fst chain) /\ linked first chain n.
+Proof. exact walk4_ok_iff_chain. Qed.
+Print Assumptions C12_v4_walk_ok_iff_chain.
+
+Theorem C12_v4_write_ok_iff_chain : forall e first bs, exts4_valid e = true ->
+  (write4 e first = (bs, Ok tt) <->
+   exists chain n, (Permutation chain (in_rfc_order (get_nh4 e)) /\ slot_order (map fst chain) /\ linked first chain n) /\
+                   next_header4 e first = Ok n /\ bs = wire_bytes4 e (map fst chain)).
+Proof. exact write4_ok_iff_chain. Qed.
+Print Assumptions C12_v4_write_ok_iff_chain.
+
+Theorem C12_v4_walk_err_iff : forall e first x,
+  next_header4 e first = Err x <->
+  x = ExtNotReferenced (ip_number_of KAuth) /\ is_some (auth4 e) = true /\ first <> ip_number_of KAuth.
+Proof. exact walk4_err_iff. Qed.
+Print Assumptions C12_v4_walk_err_iff.
+
+(* decode o write for EVERY final number (C12_decode_write is the case DNonExt): the decoder re-reads every
+   header of e and then treats n by the slot rule with every position of e filled (ChainView.decode_end):
+   Ok (e, n, []) for a non-extension number or a number whose position is filled; HopByHopNotAtStart for 0;
+   otherwise it looks for the announced header behind the written bytes: LenError{required 8 (12 for the
+   authentication header), len 0, layer of that header, offset = len bs} *)
+Theorem C12_decode_write_any : forall e first bs n, exts6_valid e = true ->
+  write e first = (bs, Ok tt) -> next_header e first = Ok n ->
+  from_slice first bs =
+  match decide (is_nil (present_kinds e)) (present_kinds e) n with
+  | DNonExt | DRefilled => Ok (e, n, [])
+  | DHopNotAtStart => Err HHopByHopNotAtStart
+  | DTake k => Err (fault_error (len bs) 0 k (FLen (min_header_len k)))
+  end.
+Proof. exact decode_write_any. Qed.
+Print Assumptions C12_decode_write_any.
+
+(* ... so the round trip holds EXACTLY for those two classes of n *)
+Theorem C12_decode_write_iff : forall e first bs n, exts6_valid e = true ->
+  write e first = (bs, Ok tt) -> next_header e first = Ok n ->
+  (from_slice first bs = Ok (e, n, []) <->
+   is_ext_number n = false \/ decide false (present_kinds e) n = DRefilled).
+Proof. exact decode_write_iff. Qed.
+Print Assumptions C12_decode_write_iff.
+
+Theorem C12_v4_decode_write_any : forall e first bs n, exts4_valid e = true ->
+  write4 e first = (bs, Ok tt) -> next_header4 e first = Ok n ->
+  from_slice4 first bs =
+  if is_some (auth4 e) || negb (n =? ip_number_of KAuth) then Ok (e, n, [])
+  else Err (ALen (mkLenError 12 0 LIpAuthHeader 0)).
+Proof. exact decode_write4_any. Qed.
+Print Assumptions C12_v4_decode_write_any.
+
+(* the slot rule `decide` as equivalences, for both values of start (completes C12_slot_rule) *)
+Theorem C12_slot_rule_full : forall start seen n,
+  (decide start seen n = DNonExt <-> is_ext_number n = false) /\
+  (decide start seen n = DHopNotAtStart <-> n = 0 /\ start = false) /\
+  (decide start seen n = DRefilled <->
+     (n = 60 /\ (has KRouting seen = true /\ has KFinalDestOpts seen = true
+                 \/ has KRouting seen = false /\ has KDestOpts seen = true)) \/
+     (n = 43 /\ has KRouting seen = true) \/ (n = 44 /\ has KFragment seen = true) \/
+     (n = 51 /\ has KAuth seen = true)) /\
+  (forall k, decide start seen n = DTake k <->
+     (k = KHopByHop /\ n = 0 /\ start = true) \/
+     (k = KDestOpts /\ n = 60 /\ has KRouting seen = false /\ has KDestOpts seen = false) \/
+     (k = KFinalDestOpts /\ n = 60 /\ has KRouting seen = true /\ has KFinalDestOpts seen = false) \/
+     (k = KRouting /\ n = 43 /\ has KRouting seen = false) \/
+     (k = KFragment /\ n = 44 /\ has KFragment seen = false) \/
+     (k = KAuth /\ n = 51 /\ has KAuth seen = false)).
+Proof. exact slot_rule_full. Qed.
+Print Assumptions C12_slot_rule_full.
+
+(* ------------------------------------------------------------------ *)
+(* non-vacuity *)
+
+(* a 4-header chain in RFC order: hop-by-hop -> destination options -> routing -> fragment -> TCP *)
+Definition ex_chain4 : Exts6 :=
+  mkExts6 (Some (ex_raw 60 0 1)) (Some (ex_raw 43 1 2)) (Some (mkRouting (ex_raw 44 0 3) None))
+          (Some (mkFrag 6 185 true 7)) None.
+
+Example C12_ex_chain4 :
+  let chain := [(KHopByHop, 60); (KDestOpts, 43); (KRouting, 44); (KFragment, 6)] in
+  exts6_valid ex_chain4 = true /\
+  (Permutation chain (in_rfc_order (get_nh ex_chain4)) /\ slot_order (map fst chain) /\ linked 0 chain 6) /\
+  next_header ex_chain4 0 = Ok 6 /\
+  write ex_chain4 0 = (wire_bytes ex_chain4 [KHopByHop; KDestOpts; KRouting; KFragment], Ok tt) /\
+  len (wire_bytes ex_chain4 [KHopByHop; KDestOpts; KRouting; KFragment]) = 40.
+Proof.
+  cbv zeta. split; [vm_compute; reflexivity|]. split.
+  - split; [apply Permutation_refl|]. split; [apply slot_orderb_sound; reflexivity|].
+    cbn. repeat split; reflexivity.
+  - vm_compute. repeat split; reflexivity.
+Qed.
+
+(* ex_perm (above): 4 headers linked auth -> routing -> final destination options -> fragment -> TCP.
+   Every header once, slot discipline obeyed, NOT the RFC order: accepted.  So the walk does not
+   enforce the recommended order of routing/fragment/auth ("RFC 8200 order only" is refuted) *)
+Example C12_ex_chain4_permuted :
+  let chain := [(KAuth, 43); (KRouting, 60); (KFinalDestOpts, 44); (KFragment, 6)] in
+  (Permutation chain (in_rfc_order (get_nh ex_perm)) /\ slot_order (map fst chain) /\ linked 51 chain 6) /\
+  next_header ex_perm 51 = Ok 6 /\
+  fst (write ex_perm 51) = wire_bytes ex_perm [KAuth; KRouting; KFinalDestOpts; KFragment] /\
+  ~ (exists first n, linked first (in_rfc_order (get_nh ex_perm)) n).
+Proof.
+  cbv zeta. split; [|split; [vm_compute; reflexivity|split; [vm_compute; reflexivity|]]].
+  - split.
+    + change (in_rfc_order (get_nh ex_perm))
+        with ([(KRouting, 60); (KFragment, 6)] ++ (KAuth, 43) :: [(KFinalDestOpts, 44)]).
+      apply Permutation_cons_app. cbn [app]. apply perm_skip. apply perm_swap.
+    + split; [apply slot_orderb_sound; reflexivity|]. cbn. repeat split; reflexivity.
+  - intros (first & n & L). cbn in L. destruct L as (_ & L & _). discriminate L.
+Qed.
+
+(* failing chains (4 headers each).
+   (a) unreferenced: the destination options point past the routing header (60 -> 44): the maximal chain is
+       hop-by-hop, destination options, fragment; the routing header is left out: ExtNotReferenced 43;
+       write has emitted the three referenced headers (24 bytes) when it reports the error.
+   (b) misplaced: destination options announced BEHIND the routing header (first slot, no second slot
+       header): the chain stops at the routing header although 60 is announced and a header with number 60
+       is in the struct: ExtNotReferenced 60.
+   (c) hop-by-hop options announced by the fragment header: HopByHopNotAtStart *)
+Definition ex_unref : Exts6 :=
+  mkExts6 (Some (ex_raw 60 0 1)) (Some (ex_raw 44 0 2)) (Some (mkRouting (ex_raw 44 0 3) None))
+          (Some (mkFrag 6 0 false 7)) None.
+Definition ex_misplaced : Exts6 :=
+  mkExts6 None (Some (ex_raw 44 0 2)) (Some (mkRouting (ex_raw 60 0 3) None))
+          (Some (mkFrag 51 0 false 7)) (Some (mkAuth 6 1 2 0 [])).
+Definition ex_late_hop : Exts6 :=
+  mkExts6 (Some (ex_raw 6 0 1)) None (Some (mkRouting (ex_raw 51 0 3) None))
+          (Some (mkFrag 0 0 false 7)) (Some (mkAuth 44 1 2 0 [])).
+
+Example C12_ex_chain4_failing :
+  (let chain := [(KHopByHop, 60); (KDestOpts, 44); (KFragment, 6)] in
+   referenced (get_nh ex_unref) 0 chain 6 /\ maximal (get_nh ex_unref) chain 6 /\
+   unreferenced (get_nh ex_unref) chain = [KRouting] /\
+   next_header ex_unref 0 = Err (ExtNotReferenced 43) /\
+   write ex_unref 0 = (wire_bytes ex_unref [KHopByHop; KDestOpts; KFragment], Err (ExtNotReferenced 43)) /\
+   error_of 6 KRouting = ExtNotReferenced 43) /\
+  (let chain := [(KRouting, 60)] in
+   referenced (get_nh ex_misplaced) 43 chain 60 /\ maximal (get_nh ex_misplaced) chain 60 /\
+   unreferenced (get_nh ex_misplaced) chain = [KDestOpts; KFragment; KAuth] /\
+   next_header ex_misplaced 43 = Err (ExtNotReferenced 60)) /\
+  (let chain := [(KRouting, 51); (KAuth, 44); (KFragment, 0)] in
+   referenced (get_nh ex_late_hop) 43 chain 0 /\ maximal (get_nh ex_late_hop) chain 0 /\
+   unreferenced (get_nh ex_late_hop) chain = [KHopByHop] /\
+   next_header ex_late_hop 43 = Err HopByHopNotAtStart /\ error_of 0 KHopByHop = HopByHopNotAtStart).
+Proof.
+  assert (R : forall get first chain next,
+             forallb (fun p => match get (fst p) with Some a => a =? snd p | None => false end) chain = true ->
+             NoDup (map fst chain) -> slot_orderb [] (map fst chain) = true -> linked first chain next ->
+             referenced get first chain next).
+  { intros get first chain next F N S L. split; [|split; [exact N|split; [now apply slot_orderb_sound|exact L]]].
+    apply Forall_forall. intros p I. rewrite forallb_forall in F. specialize (F p I). unfold is_header_of.
+    destruct (get (fst p)); [|discriminate]. apply N.eqb_eq in F. now subst. }
+  assert (M : forall get chain next,
+             (forall k, match get k with
+                        | Some _ => (ip_number_of k =? next) && negb (has k (map fst chain))
+                                    && may_followb (map fst chain) k
+                        | None => false end = false) ->
+             maximal get chain next).
+  { intros get chain next H k nh (E & G & NI & MF). specialize (H k). rewrite G in H.
+    apply N.eqb_eq in E. apply has_not_In in NI. apply may_followb_ok in MF. rewrite E, NI, MF in H. discriminate. }
+  cbv zeta. split; [|split].
+  - split; [apply R; [reflexivity|repeat constructor; cbn; intuition discriminate|reflexivity|cbn; repeat split; reflexivity]|].
+    split; [apply M; intros k; destruct k; reflexivity|]. vm_compute. repeat split; reflexivity.
+  - split; [apply R; [reflexivity|repeat constructor; cbn; intuition discriminate|reflexivity|cbn; repeat split; reflexivity]|].
+    split; [apply M; intros k; destruct k; reflexivity|]. vm_compute. repeat split; reflexivity.
+  - split; [apply R; [reflexivity|repeat constructor; cbn; intuition discriminate|reflexivity|cbn; repeat split; reflexivity]|].
+    split; [apply M; intros k; destruct k; reflexivity|]. vm_compute. repeat split; reflexivity.
+Qed.
+
+(* Ipv4Extensions: the chain is the authentication header or empty *)
+Example C12_ex_v4_chain :
+  let e := mkExts4 (Some (mkAuth 6 1 2 1 [1; 2; 3; 4])) in
+  (Permutation [(KAuth, 6)] (in_rfc_order (get_nh4 e)) /\ slot_order [KAuth] /\ linked 51 [(KAuth, 6)] 6) /\
+  next_header4 e 51 = Ok 6 /\ fst (write4 e 51) = wire_bytes4 e [KAuth] /\
+  next_header4 e 17 = Err (ExtNotReferenced 51) /\
+  referenced (get_nh4 e) 17 [] 17 /\ unreferenced (get_nh4 e) [] = [KAuth] /\
+  next_header4 (mkExts4 None) 51 = Ok 51 /\ write4 (mkExts4 None) 51 = ([], Ok tt) /\
+  from_slice4 51 [] = Err (ALen (mkLenError 12 0 LIpAuthHeader 0)).
+Proof.
+  cbv zeta. split.
+  - split; [apply Permutation_refl|]. split; [apply slot_orderb_sound; reflexivity|cbn; auto].
+  - split; [reflexivity|]. split; [vm_compute; reflexivity|]. split; [reflexivity|].
+    split; [apply referenced_nil|]. vm_compute. repeat split; reflexivity.
+Qed.
+
+(* every class of the final number for decode o write: 6 (no extension number) and 44 behind a fragment
+   header (position filled: round trip holds although 44 is an extension number); 0 (error); 51 without an
+   authentication header (C12_ex_needs_non_ext: LenError required 12, len 0, IpAuthHeader, offset 8 = all bytes) *)
+Example C12_ex_decode_classes :
+  (let e := mkExts6 None None None (Some (mkFrag 44 0 false 0)) None in
+   next_header e 44 = Ok 44 /\ is_ext_number 44 = true /\ decide false (present_kinds e) 44 = DRefilled /\
+   from_slice 44 (fst (write e 44)) = Ok (e, 44, [])) /\
+  (let e := mkExts6 None None None (Some (mkFrag 51 0 false 0)) None in
+   next_header e 44 = Ok 51 /\ decide false (present_kinds e) 51 = DTake KAuth /\
+   from_slice 44 (fst (write e 44)) = Err (HLen (mkLenError 12 0 LIpAuthHeader 8))) /\
+  (let e := mkExts6 None None None (Some (mkFrag 0 0 false 0)) None in
+   next_header e 44 = Ok 0 /\ from_slice 44 (fst (write e 44)) = Err HHopByHopNotAtStart) /\
+  (next_header exts6_default 0 = Ok 0 /\ write exts6_default 0 = ([], Ok tt) /\
+   decide (is_nil (present_kinds exts6_default)) (present_kinds exts6_default) 0 = DTake KHopByHop /\
+   from_slice 0 [] = Err (HLen (mkLenError 8 0 LIpv6ExtHeader 0))).
+Proof. vm_compute. repeat split; reflexivity. Qed.
